@@ -359,4 +359,12 @@ Section Refine.
     rewrite (r_kv _ _ R). unfold reload_index, flush_every, kv0 in *.
     destruct (a_kv (run_state arun_op (ainit cap) ops)); lia.
   Qed.
+  Theorem restart_index_lag_100 cap ops cap' :
+    faultfree ops = true ->
+    let s := run_state brun_op (binit cap) ops in
+    next_index (buf (restart s cap' true)) >= next_index (buf s) - 100.
+  Proof.
+    intros Hf s. pose proof (restart_index_lag_pf cap ops cap' Hf) as H. fold s in H.
+    rewrite flush_count_is_100 in H. apply Z.le_ge. apply Z.lt_le_incl. apply Z.gt_lt. exact H.
+  Qed.
 End Refine.
